@@ -267,6 +267,30 @@ theorem restored_start_has_c18_invariant_partial (own : Bytes → Bool) (n : Nat
       (containers (openDB own (ps.map (·.2)))).flatten :=
   restored_dinv own n hn ps hne hok hdis hage nid hids c
 
+/-- **restored_table_ids_fresh**: after a restore from ANY list of handles in ANY order the table writer continues above
+every table number of EVERY handle (`Checkpoint.NextTableID` over the composite level list, whatever directory a table
+lies in), and replaying the WALs does not move it; so every table a later flush or compaction names (`mkTables s.nextId`)
+differs from every loaded table — also when the instance is opened in the directory of one of its sources (an operator that
+keeps running across a scale-in), whichever handle was recorded first. The single-handle case is C08's D28. -/
+theorem restored_table_ids_fresh (own : Bytes → Bool) (c : Ckpt) (cs : List Ckpt) (n : Nat)
+    (hnl : ∀ h ∈ c :: cs, h.levels.length = n) :
+    let s := openDB own (c :: cs)
+    (∀ h ∈ c :: cs, ∀ t ∈ h.levels.flatten, t.id < s.nextId) ∧
+    (∀ t ∈ s.levels.flatten, t.id < s.nextId) ∧
+    (∀ (runs : List Run), ∀ t' ∈ mkTables s.nextId runs, ∀ t ∈ s.levels.flatten, t'.id ≠ t.id) := by
+  intro s
+  have hlev : s.levels = mergeLevels (c :: cs) := (openDB_inv own c cs).levels
+  have hn : s.nextId = nextTableId (mergeLevels (c :: cs)) := openDB_nextId own c cs
+  have hlt : ∀ t ∈ s.levels.flatten, t.id < s.nextId := by
+    intro t ht
+    rw [hn]; rw [hlev] at ht
+    exact lt_nextTableId _ t ht
+  refine ⟨fun h hh t ht => hlt t (by rw [hlev]; exact mem_mergeLevels_of_handle _ n hnl h hh t ht), hlt, ?_⟩
+  intro runs t' ht' t ht heq
+  have h1 := mkTables_id_ge s.nextId runs t' ht'
+  have h2 := hlt t ht
+  omega
+
 /-- **write_after_restore_wins_scan**: one write after the restore, observed through `ScanPrefix` (the operator's
 read path): the scan holds the key with exactly the new value (or not at all after a delete). This needs the restored
 sequence number to be above every loaded version (`seq_above_loaded`, i.e. the repair of D6): see
@@ -605,7 +629,7 @@ theorem d37_counterexample :
     (scanR s [0, 150]).map (·.val) = [[8]] ∧
     (⟨0, 86⟩ : KGRange).overlaps ⟨86, 171⟩ = false ∧ Keys.ownsKey ⟨86, 171⟩ [0, 65, 97] = false := by
   intro s
-  have hs : s = { seq := latestSeq [[], [W37.tA, W37.tB, W37.tC]], mems := [[]], levels := [[], [W37.tA, W37.tB, W37.tC]] } := by
+  have hs : s = startState tblEndSeq [[], [W37.tA, W37.tB, W37.tC]] := by
     show openWith mergeLevels tblEndSeq _ _ = _
     unfold openWith
     simp only [W37.merged]
@@ -645,13 +669,13 @@ theorem d47_counterexample :
     Keys.ownsKey ⟨128, 256⟩ k = false := by
   intro k own
   have h1 : openDB own [W47.cX, W47.cY] =
-      { seq := latestSeq [[W47.T, W47.Tx, W47.T], []], mems := [[]], levels := [[W47.T, W47.Tx, W47.T], []] } := by
+      startState tblEndSeq [[W47.T, W47.Tx, W47.T], []] := by
     show openWith mergeLevels tblEndSeq _ _ = _
     unfold openWith
     simp only [W47.merged_xy]
     rfl
   have h2 : openDB own [W47.cY, W47.cX] =
-      { seq := latestSeq [[W47.T, W47.T, W47.Tx], []], mems := [[]], levels := [[W47.T, W47.T, W47.Tx], []] } := by
+      startState tblEndSeq [[W47.T, W47.T, W47.Tx], []] := by
     show openWith mergeLevels tblEndSeq _ _ = _
     unfold openWith
     simp only [W47.merged_yx]
@@ -659,14 +683,32 @@ theorem d47_counterexample :
   rw [h1, h2]
   decide +kernel
 
+/-- **D72 on the model** (open finding; the D50 family: one directory, one `checkpoints` document). Operator `A` (range
+`[0,128)`, key `[0,1,97]`) and operator `B` (`[128,256)`) keep running and are redeployed from job checkpoint 1 at
+exchanged positions: `A` restores `B`'s handle into its own directory. The document `A` saves at its next checkpoint holds,
+under id 1, the composite it loaded (`compositeDoc [docB]`). A later restore of `A`'s retained handle of checkpoint 1 —
+which the restore theorems would answer with `ckptAnswer docA` — then reads that entry and `A`'s key is gone. -/
+theorem d72_counterexample :
+    let docA : Ckpt := ⟨[[⟨0, [⟨[0, 1, 97], 1, false, [5]⟩]⟩], []], []⟩
+    let docB : Ckpt := ⟨[[], []], [⟨[0, 129, 98], false, [6]⟩]⟩
+    let rewritten := compositeDoc [docB]
+    ckptAnswer docA [0, 1, 97] = some [5] ∧
+    answer (getR (openDB (Keys.ownsKey ⟨0, 128⟩) [docA]) [0, 1, 97]) = some [5] ∧
+    answer (getR (openDB (Keys.ownsKey ⟨0, 128⟩) [rewritten]) [0, 1, 97]) = none ∧
+    (scanR (openDB (Keys.ownsKey ⟨0, 128⟩) [rewritten]) [0, 1]) = [] := by
+  decide +kernel
+
 /-- regression witness D8: with the handles in descending key order the unsorted deeper level hid the first table -/
 theorem d8_counterexample :
     getR (openDBOld (Keys.ownsKey ⟨0, 256⟩) [exC2, exC1]) [0, 200, 97] = none ∧
     ckptAnswer exC2 [0, 200, 97] = some [9] := by decide +kernel
 
+/-- two handles whose tables carry the numbers {0} and {0, 1} (in their own directories): the restored instance continues
+at 2 in either handle order -/
+example : (openDB (Keys.ownsKey ⟨0, 256⟩) [exC6]).nextId = 1 ∧ nextTableId [[⟨0, []⟩], [⟨0, []⟩, ⟨1, []⟩]] = 2 := by decide
+
 /-- regression witness D6: the table's last key carries the smallest sequence number; after a filtered replay the
 unrepaired restore numbered a new write below the restored version -/
-
 theorem d6_scan_counterexample :
     ((scan (write (openDBOld (Keys.ownsKey ⟨0, 128⟩) [exC6]) [0, 1, 97] false [42]) [0, 1]).map (·.val)) = [[7]] ∧
     ((scan (write (openDB (Keys.ownsKey ⟨0, 128⟩) [exC6]) [0, 1, 97] false [42]) [0, 1]).map (·.val)) = [[42]] ∧
